@@ -27,14 +27,21 @@ def role(n):
     return n.get("k", "?")
 
 
-def profile(body_value, skip_nodes=()):
-    """Counter of features below a body (closures included, nodes in skip_nodes and their subtrees excluded)."""
+def profile(body_value, skip_nodes=(), F=None, expand=None, _depth=0):
+    """Counter of features below a body (closures included, nodes in skip_nodes and their subtrees excluded).
+    With F and `expand` (a predicate on callee paths), calls of private helper functions contribute the features of their bodies,
+    so that extracting or inlining a helper does not change the profile."""
     feats = Counter()
     skip = set(id(x) for s in skip_nodes for x in walk(s))
     for n in walk(body_value):
         if id(n) in skip:
             continue
         k = n.get("k")
+        if F is not None and expand is not None and k in ("mcall", "call") and _depth < 4:
+            cp = callee(n) or ""
+            hb = F.bodies.get(cp)
+            if hb is not None and hb.hir and expand(cp) and cp.rsplit("::", 1)[-1] not in CALLS:
+                feats += profile(hb.value, (), F, expand, _depth + 1)
         if k == "bin":
             op = n["op"]
             if op in ("Lt", "Le", "Gt", "Ge", "Eq", "Ne"):
